@@ -57,6 +57,7 @@ TYPE_SUBST = [
     ('E2-valueset', r'HashSet<Value>', 'VValueSet'),
     ('E2-valueset-ctor', r'HashSet::new\(\)', 'VValueSet::new()'),
     ('E2-rowset-ctor', r'FnvHashSet::default\(\)', 'VRowSet::default()'),
+    ('E2-peekable-chars', r"Peekable<Chars<'a>>", 'VChars'),
 ]
 
 
@@ -147,12 +148,26 @@ class Expander:
         self.defines = {}
         self.variants = []
 
-    def src(self, rel):
+    def src(self, rel, within=None):
         if rel not in self.sources:
             p = os.path.join(self.repo, rel)
             if not os.path.exists(p):
                 raise AnchorLost('source file %s is gone' % rel)
             self.sources[rel] = Source(p)
+        if within:
+            # rule E6: items declared inside a function body (Verus has no internal items) are addressed through a view
+            # of the file in which everything outside that body is blanked; offsets and line numbers stay those of the file
+            key = rel + '::' + within
+            if key not in self.sources:
+                s = self.sources[rel]
+                impl_, _, name_ = within.rpartition('::')
+                try:
+                    hs, bo, bc = s.find_fn(impl_ or '-', name_)
+                except ScanError as e:
+                    raise AnchorLost(str(e))
+                blank = lambda t: re.sub(r'[^\n]', ' ', t)
+                self.sources[key] = Source(s.path, blank(s.text[:bo + 1]) + s.text[bo + 1:bc] + blank(s.text[bc:]))
+            return self.sources[key]
         return self.sources[rel]
 
     def emit(self, text):
@@ -161,7 +176,7 @@ class Expander:
 
     # ------------------------------------------------------------ directives
     def do_item(self, kv):
-        s = self.src(kv['file'])
+        s = self.src(kv['file'], kv.get('within'))
         try:
             hs, bo, bc = s.find_item(kv['kind'], kv['name'])
         except ScanError as e:
@@ -182,7 +197,7 @@ class Expander:
         self.emit(text)
 
     def do_fn(self, kv, sections):
-        s = self.src(kv['file'])
+        s = self.src(kv['file'], kv.get('within'))
         try:
             hs, bo, bc = s.find_fn(kv.get('impl', '-'), kv['name'])
         except ScanError as e:
@@ -248,6 +263,16 @@ class Expander:
             src_lines = [s.line_of(hs), s.line_of(bc)]
             body_src_off = body_s
 
+        if 'hoist-local-items' in sections:
+            # rule E6: item statements of the body (struct / impl / fn declared inside the function) are cut out here;
+            # the template emits them at module level through `within=` directives
+            tmp = Source('<body>', ' ' + body_text[1:-1] + ' ')
+            cut = [(hs_, bc_ + 1, hd_) for (k_, hd_, hs_, bo_, bc_) in tmp.top_items()]
+            for a_, b_, hd_ in sorted(cut, reverse=True):
+                body_text = body_text[:a_] + body_text[b_:]
+                self.local_rewrites.append({'fn': label, 'regex': '<local item> ' + re.sub(r'\s+', ' ', hd_)[:60], 'replacement': '<hoisted to module level (rule E6)>', 'count': 1})
+            self.rules_fired['E6'] = self.rules_fired.get('E6', 0) + len(cut)
+
         # signature
         if 'sig' in sections:
             sig_out = ' '.join(x.strip() for x in sections['sig']).strip()
@@ -302,6 +327,18 @@ class Expander:
                 raise SystemExit('ghost-before must insert a proof block or assert')
             body_text = body_text[:m.start()] + rep.strip() + '\n' + body_text[m.start():]
             self.local_rewrites.append({'fn': label, 'regex': rx.strip(), 'replacement': '<ghost proof block inserted before>', 'count': 1})
+        for key_, after_ in (('ghost-before-all', False), ('ghost-after-all', True)):
+            for ln in sections.get(key_, []):
+                rx, rep = ln.split(' => ', 1)
+                ms = list(re.finditer(rx.strip(), body_text))
+                if not ms:
+                    raise AnchorLost('%s: %s /%s/ no longer matches' % (label, key_, rx.strip()))
+                if not rep.strip().startswith(('proof {', 'assert', 'broadcast use')):
+                    raise SystemExit(key_ + ' must insert a proof block or assert')
+                for m in reversed(ms):
+                    at = m.end() if after_ else m.start()
+                    body_text = body_text[:at] + '\n' + rep.strip() + '\n' + body_text[at:]
+                self.local_rewrites.append({'fn': label, 'regex': rx.strip(), 'replacement': '<ghost proof block inserted %s every match>' % ('after' if after_ else 'before'), 'count': len(ms)})
         for ln in sections.get('ghost-after', []):
             rx, rep = ln.split(' => ', 1)
             m = re.search(rx.strip(), body_text)
@@ -463,6 +500,21 @@ class Expander:
                 self.consts[cname] = mm.group(1)
                 lines[i] = 'pub open spec fn %s() -> int { %s }   // read from %s' % (cname, mm.group(1), kv['file'])
                 continue
+            if st.startswith('//@srctext'):
+                # //@srctext NAME file=<path> re="<regex with one group>": NAME in the rest of the template stands for the
+                # source text of group 1 (white space normalised) - e.g. the elements of a literal table
+                rest = st[len('//@srctext'):].strip()
+                cname, rest = rest.split(' ', 1)
+                kv = parse_kv(rest)
+                mm = re.search(kv['re'], self.src(kv['file']).text, re.S)
+                if not mm:
+                    raise AnchorLost('source text %s: /%s/ not found in %s' % (cname, kv['re'], kv['file']))
+                val = re.sub(r'\s+', ' ', mm.group(1)).strip().rstrip(',')
+                lines[i] = '// %s read from %s: %s' % (cname, kv['file'], val)
+                for j in range(i + 1, len(lines)):
+                    if not lines[j].strip().startswith('//@'):
+                        lines[j] = re.sub(r'\b%s\b' % cname, val.replace('\\', '\\\\'), lines[j])
+                continue
             if st.startswith('//@fields'):
                 # //@fields file=<path> name=<Struct> expect="a,b,c" : a hand re-declared struct (rule E2) must list exactly
                 # the fields of the real one - otherwise the unit is UNDECIDED
@@ -501,7 +553,7 @@ class Expander:
                         if not m:
                             raise SystemExit('bad directive line: ' + l2)
                         key = m.group(1)
-                        if key in ('replace', 'opt-replace', 'stub-block', 'ghost-before', 'ghost-after'):
+                        if key in ('replace', 'opt-replace', 'stub-block', 'ghost-before', 'ghost-after', 'ghost-before-all', 'ghost-after-all'):
                             sections.setdefault(key, []).append(m.group(2))
                             cur = None
                         else:
